@@ -57,8 +57,16 @@ def do_step(cur_root, persistent, ri, k, objs, prev, style="clone"):
     s = {"rule": name, "opt": opt, "k": k, "src": project.term(cur_root), "res": 0, "hr": {"n": 0}, "printed": "", "reparse": "-",
          "re": {"k": "c", "n": 0, "d": 1}, "changed": []}
     new_root = None
+    s["style"] = style
     try:
-        work = nd.clone_from_root()
+        if style == "deepcopy":
+            import copy
+            work = copy.deepcopy(nd)              # the standard copy protocol brings the whole tree along (through the parent links)
+        elif style == "pickle":
+            import pickle
+            work = pickle.loads(pickle.dumps(nd))
+        else:
+            work = nd.clone_from_root()
         change = rule.apply_to(work)
         res = change.result
         s["outcome"] = "ok"
@@ -79,7 +87,7 @@ def do_step(cur_root, persistent, ri, k, objs, prev, style="clone"):
         try:
             s["printed"] = str(new_root)
             try:
-                s["re"] = project.term(rewrite.parse(s["printed"]))
+                s["re"] = project.term(rewrite.reparse(s["printed"]))
                 s["reparse"] = "ok"
             except BaseException as e:  # noqa
                 s["reparse"] = type(e).__name__
@@ -119,7 +127,7 @@ def do_step_inplace(cur_root, persistent, ri, k, nd):
         try:
             s["printed"] = str(new_root)
             try:
-                s["re"] = project.term(rewrite.parse(s["printed"]))
+                s["re"] = project.term(rewrite.reparse(s["printed"]))
                 s["reparse"] = "ok"
             except BaseException as e:  # noqa
                 s["reparse"] = type(e).__name__
@@ -152,9 +160,9 @@ def walk(job):
             ris = sorted({a[0] for a in app})
             ri = rng.choice(ris)
             k = rng.choice([a[1] for a in app if a[0] == ri])
-            style = "inplace" if (len(script) > 3 and script[3] and rng.random() < 0.4) else "clone"
+            style = (rng.choice(["inplace", "inplace", "deepcopy", "pickle"]) if rng.random() < 0.5 else "clone") if (len(script) > 3 and script[3]) else "clone"
             s, new_root, prev, objs = do_step(cur, persistent, ri, k, objs, prev, style)
-            tr["steps"].append(s); tr["script"].append([ri, k] + (["inplace"] if style == "inplace" else []))
+            tr["steps"].append(s); tr["script"].append([ri, k] + ([style] if style != "clone" else []))
             if new_root is None or s["outcome"] != "ok" or len(rewrite.inorder(new_root)) > 60:
                 break
             cur = new_root
@@ -172,7 +180,7 @@ def walk(job):
             if not ok:
                 break
             s, new_root, prev, objs = do_step(cur, persistent, ri, k, objs, prev, style)
-            tr["steps"].append(s); tr["script"].append([ri, k] + (["inplace"] if style == "inplace" else []))
+            tr["steps"].append(s); tr["script"].append([ri, k] + ([style] if style != "clone" else []))
             if new_root is None or s["outcome"] != "ok":
                 break
             cur = new_root
@@ -211,6 +219,7 @@ SEEDS = ["4x + 2x", "2x + 3y + x", "(x + 1) * 2", "2(x + 3) + 4x", "x * x^2 * 2"
          "3x + 4X + 2y", "X * x * 2", "2X + 3X + x", "4x * 2X^2 + y", "0.5x + 0.5y + 1", "0.5x^2 + 0.5x + y", "-6 + 4 + x", "12 + -8 + 2x",
          "(y + 4x) + 3x", "4x + 2 * 3x", "(y * 2x) * 3x", "5 + ((3 + x) + y)", "3x = 6 + 9y", "2 * ((x + 1) + 5) = 20", "x + -2y^2 = 3", "7 = 2 + 4x + y",
          "x - 2 = 3", "9 - 2x = 3", "-x = 4 + x", "x / 2 = 4", "x^2 = 4 + x^2", "y + (x + 2) = 7", "sgn(x) + 2 = 3", "5 = 3 + 2", "x + x = 2x", "1/2 x = 3",
+         "10^400 * 2 + x", "7^365 + 1 + x", "2^1030 * x + 2^1030 * x", "(10^200)^2 + y",
          "0^0.5 * x = 0", "(0.0^2)x = 0", "(4^0.5)x = 6", "(4 / 0)x + 2x", "(2 - 2) * x + 2x"] + rewrite.SHARED_ID_EQ_FORMS[:6] + rewrite.SHARED_ID_FORMS[:5]
 
 
